@@ -132,7 +132,9 @@ struct X {
     switch (vk_choose(4)) {
       case 0: log_ack(t, (uint16_t)(pid + 7), 0, false, false); w.ack(t, (uint16_t)(pid + 7), 0, 1); break;                    // right type, identifier nobody uses
       case 1: { // a reply type that is never part of this exchange: PUBACK for a QoS 2 exchange, PUBREC for a QoS 1 exchange
-                uint8_t q = 1; for (int i = 0; i < w.npk; i++) if (w.pk[i].epoch == w.epoch && w.pk[i].type == ref::PUBLISH && w.pk[i].pid == pid) q = w.pk[i].qos;
+                // (the QoS of the exchange that uses this identifier: from the packet if the broker has it, else from the oldest open request)
+                uint8_t q = 1; for (int i = 0; i < nreq; i++) if (!w.ops[reqs[i].op].done) { q = reqs[i].qos; break; }
+                for (int i = 0; i < w.npk; i++) if (w.pk[i].epoch == w.epoch && w.pk[i].type == ref::PUBLISH && w.pk[i].pid == pid) q = w.pk[i].qos;
                 uint8_t wrong = q == 2 ? ref::PUBACK : ref::PUBREC; log_ack(wrong, pid, 0, false, false); w.ack(wrong, pid, 0, 1); break; }
       case 2: { uint8_t rc = vk_sym_u8(); vk_assume(!ref::rc_listed(t, rc)); log_ack(t, pid, rc, false, true); w.ack(t, pid, rc, 1); break; }           // inadmissible reason code
       default: { log_ack(t, pid, 0, false, true); ref::wr o = w.outw(); uint8_t b[5] = {(uint8_t)(pid >> 8), (uint8_t)pid, 0, 0x7F, 0x1F};            // property length beyond the packet
@@ -167,7 +169,8 @@ struct X {
 #if VK_MODE == 3
       const uint8_t* bytes = w.rx + r.off;
       if (!have_first[q]) {
-        vk_assert(!r.dup, "first transmission of a PUBLISH has DUP set");
+        // (a transmission that was written locally but lost with the connection is invisible to the broker: then the first one it sees may carry DUP)
+        if (!lost_tx[q]) vk_assert(!r.dup, "first transmission of a PUBLISH has DUP set");
         vk_assert(r.len <= 48, "harness: packet size"); for (uint32_t b = 0; b < r.len; b++) first_tx[q][b] = bytes[b]; first_tx_len[q] = r.len; have_first[q] = true;
       } else {
         vk_assert(r.len == first_tx_len[q], "retransmitted PUBLISH differs in length from the first transmission");
